@@ -13,6 +13,7 @@ pub mod panics;
 pub mod props;
 pub mod refimpl;
 pub mod report;
+pub mod sim;
 pub mod util;
 
 use report::{EvidenceMeta, KnownFindings, Report};
